@@ -35,7 +35,7 @@ from ..mutate import mutate, remove_stmts, replace_expr, replace_stmt, parse_stm
 from ..x_http import (
     RegexEnv, atom_edges, call_sites_in, call_tree, canon_atom, contains, forward_until, group_count, group_rx, handler_for,
     leads_to_raise, node_mentions, only_through, raised_class, reach_without, rebinds_between, resolve_call, same_expr,
-    single_bindings, truthy_edges, norm_func, Flow, group_index, handler_class_names, unpack_of,
+    single_bindings, truthy_edges, norm_func, Flow, group_index, handler_class_names, unpack_of, const_of, argx, bound_args, mk_evaluator, module_consts,
 )
 
 TECHNIQUE = "regex-automata language bounds + branch-edge guard dominance on the CFG + exception-escape lint over the resolved read call tree"
@@ -94,7 +94,26 @@ def _stream_read(n):
     return isinstance(n, ast.Call) and isinstance(n.func, ast.Attribute) and n.func.attr in ("read_until_regex", "read_until", "read_bytes", "read_until_close") and (q.dotted(n.func.value) or "").endswith("stream")
 
 
+_MODS = []  # modules whose module-level literals may stand for a literal in the anchored code (set in run())
+
+
+def init_modules(ck):
+    _MODS[:] = [ck.repo.module(H1), ck.repo.module(HU)]
+
+
+def _lit(e):
+    """the literal ``e`` denotes: itself, or the module-level constant a bare name refers to (hoisted literal)"""
+    if isinstance(e, ast.Constant):
+        return e
+    if isinstance(e, ast.Name):
+        hits = [m.assigns[e.id] for m in _MODS if isinstance(m.assigns.get(e.id), ast.Constant)]
+        if len(hits) == 1:
+            return hits[0]
+    return e
+
+
 def _const_str(e, v=None):
+    e = _lit(e) if e is not None else e
     return isinstance(e, ast.Constant) and isinstance(e.value, str) and (v is None or e.value == v)
 
 
@@ -125,6 +144,11 @@ def _hdr_absent(key, hp, binds):
 
 def _hdr_get(e, key, hp=None):
     return isinstance(e, ast.Subscript) and _const_str(e.slice, key) and (hp is None or q.dotted(e.value) == hp)
+
+
+def _is_bytes(e, v):
+    e = _lit(e) if e is not None else e
+    return isinstance(e, ast.Constant) and e.value == v
 
 
 def _stmt_node(fi, astnode):
@@ -230,6 +254,7 @@ def check_header_block(ck, env, RP="C01"):
     ref_f = env.rx(HEADER_END, "fullmatch")
     for node, c in reads:
         pe = q.arg(c, 0, "regex")
+        pe = _lit(pe) if pe is not None else pe
         pat = None
         if isinstance(pe, ast.Constant) and isinstance(pe.value, bytes):
             pat = pe.value
@@ -523,7 +548,8 @@ def fold_parse_line(ck, pl, line, last_key="X-A", http_mode=True):
     ps = [p for p in pl.params() if p != "self"]
     flag, _d = _flag_param(pl)
     adds = []
-    ev = Evaluator()
+    ev = mk_evaluator(pl)
+    ev.signatures["self.add"] = [p_ for p_ in ck.repo.func(HU, "HTTPHeaders.add").params() if p_ != "self"]
 
     def on_call(st, c, d, args):
         if d == "self.add":
@@ -781,15 +807,15 @@ def check_read_body(ck, tree, RP="C01"):
 
     def strict_length(e):
         """parse_int(<Content-Length value | one member of its split list>)"""
-        if not (isinstance(e, ast.Call) and resolve_call(repo, fi, e) is parse_int and len(e.args) == 1):
+        if not (isinstance(e, ast.Call) and resolve_call(repo, fi, e) is parse_int and argx(repo, fi, e, 0, "s") is not None):
             return False
-        a = e.args[0]
+        a = argx(repo, fi, e, 0, "s")
         if is_cl_value(a):
             return True
         return isinstance(a, ast.Subscript) and isinstance(a.slice, ast.Constant) and split_of_cl(a.value) is not None
 
     for node, c in fixed:
-        a0 = q.arg(c, 0)
+        a0 = argx(repo, fi, c, 0, "content_length")
         if not isinstance(a0, ast.Name):
             raise AnalysisError("_read_fixed_body length argument of unknown shape at %s" % fi.site(c))
         L = a0.id
@@ -817,7 +843,7 @@ def check_read_body(ck, tree, RP="C01"):
     te = repo.func(H1, "is_transfer_encoding_chunked")
     te_calls = [(n, c) for n, c in cfg.find(lambda x: isinstance(x, ast.Call) and resolve_call(repo, fi, x) is te)]
     for node, c in te_calls:
-        ck.ob(R, fi, c, len(c.args) == 1 and q.dotted(c.args[0]) == hp, "the transfer-coding decision is taken on the message's own headers")
+        ck.ob(R, fi, c, q.dotted(argx(repo, fi, c, 0, "headers")) == hp, "the transfer-coding decision is taken on the message's own headers")
     te_ids = {n.id for n, _ in te_calls}
     for r in list(cfg.stmt_nodes(lambda n: n.kind == "stmt" and isinstance(n.ast, ast.Return))):
         reach = reach_without(cfg, (), stop=lambda n: n.id in te_ids)
@@ -988,7 +1014,7 @@ def check_chunked(ck, tree, RP="C01"):
     size_vars = set()
     for node, c in size_reads:
         d = q.arg(c, 0, "delimiter")
-        ck.ob(R, fi, c, isinstance(d, ast.Constant) and d.value == b"\r\n", "the chunk-size line ends with CRLF")
+        ck.ob(R, fi, c, _is_bytes(d, b"\r\n"), "the chunk-size line ends with CRLF")
         if isinstance(node.ast, ast.Assign) and isinstance(node.ast.targets[0], ast.Name):
             size_vars.add(node.ast.targets[0].id)
     hx = [(n, c) for n, c in cfg.find(lambda x: isinstance(x, ast.Call) and resolve_call(repo, fi, x) is hexint)]
@@ -999,7 +1025,8 @@ def check_chunked(ck, tree, RP="C01"):
             if isinstance(st, ast.Assign) and isinstance(st.targets[0], ast.Name) and (q.names_in(st.value) & size_vars) and not any(_stream_read(x) for x in ast.walk(st.value)):
                 len_vars.add(st.targets[0].id)
     for node, c in hx:
-        a = _expand(c.args[0], single_bindings(fi.node), keep=size_vars) if c.args else None
+        a0_ = argx(repo, fi, c, 0, "s")
+        a = _expand(a0_, single_bindings(fi.node), keep=size_vars) if a0_ is not None else None
         while isinstance(a, ast.Call) and q.call_attr(a) in ("native_str", "to_unicode") and a.args:
             a = a.args[0]
         ok = isinstance(a, ast.Subscript) and q.dotted(a.value) in size_vars and isinstance(a.slice, ast.Slice) and a.slice.lower is None and isinstance(a.slice.upper, ast.UnaryOp) and isinstance(a.slice.upper.op, ast.USub) and q.is_const(a.slice.upper.operand, 2)
@@ -1033,7 +1060,7 @@ def check_chunked(ck, tree, RP="C01"):
     def is_term_read(c):
         # a fixed-size read (protocol bytes, not body data): constant size
         a0 = q.arg(c, 0, "num_bytes")
-        return isinstance(a0, ast.Constant)
+        return isinstance(_lit(a0) if a0 is not None else a0, ast.Constant)
 
     sites = [(fi, n, c) for n, c in call_sites(fi, ".read_bytes") if is_term_read(c)]
     helper_calls = 0
@@ -1052,7 +1079,7 @@ def check_chunked(ck, tree, RP="C01"):
             continue
         seen_sites.add((hf.qualname, node.id))
         hcfg = hf.cfg
-        ck.ob(R, hf, c, q.is_const(q.arg(c, 0, "num_bytes"), 2), "the terminator read takes exactly 2 bytes")
+        ck.ob(R, hf, c, q.is_const(_lit(q.arg(c, 0, "num_bytes")), 2), "the terminator read takes exactly 2 bytes")
         pk = q.kwarg(c, "partial") or (c.args[1] if len(c.args) > 1 else None)
         ck.ob(R, hf, c, pk is None or q.is_const(pk, False), "the terminator is read completely (a partial read may return one byte and mis-frame the stream)")
         if not (isinstance(node.ast, ast.Assign) and isinstance(node.ast.targets[0], ast.Name)):
@@ -1062,8 +1089,8 @@ def check_chunked(ck, tree, RP="C01"):
 
         def is_cmp(x, X=X):
             return (isinstance(x, ast.Compare) and len(x.ops) == 1 and isinstance(x.ops[0], (ast.Eq, ast.NotEq))
-                    and ((q.dotted(x.left) == X and isinstance(x.comparators[0], ast.Constant) and x.comparators[0].value == b"\r\n")
-                         or (q.dotted(x.comparators[0]) == X and isinstance(x.left, ast.Constant) and x.left.value == b"\r\n")))
+                    and ((q.dotted(x.left) == X and _is_bytes(x.comparators[0], b"\r\n"))
+                         or (q.dotted(x.comparators[0]) == X and _is_bytes(x.left, b"\r\n"))))
 
         ok, bad = forward_until(hcfg, node, lambda n: node_mentions(n, is_cmp), lambda n: node_mentions(n, _stream_read) or (n.kind == "stmt" and isinstance(n.ast, ast.Return)))
         if not ok:
@@ -1082,61 +1109,45 @@ def check_chunked(ck, tree, RP="C01"):
     check_counted_reads(ck, fi, len_vars, RP=RP)
 
 
-def check_counted_reads(ck, fi, length_sources, RP="C01"):
-    """Data reads (``read_bytes(..., partial=True)``): size bounded by the remaining count, count decremented by
-    exactly the bytes received, loop on the count, and the bytes delivered are those read."""
+def check_counted_reads(ck, fi, length_sources=None, RP="C01"):
+    """Body byte accounting of a reader, decided by folding it on a scripted stream whose partial reads return fewer
+    bytes than requested: a read never asks for more than is still owed, every byte read is delivered exactly once and
+    in order, and exactly the declared number of bytes is consumed.  (No recogniser for the loop's shape is needed.)"""
+    from . import c04 as _c04
+    from . import c08 as _c08
     R = RP + ".body-byte-count"
-    cfg = fi.cfg
-    pm = q.parent_map(fi.node)
-    reads = [(n, c) for n, c in call_sites(fi, ".read_bytes") if not isinstance(q.arg(c, 0, "num_bytes"), ast.Constant)]
-    ck.floor(R, len(reads), 1, "partial data reads in %s" % fi.qualname)
-    for node, c in reads:
-        st = node.ast
-        if not (isinstance(st, ast.Assign) and isinstance(st.targets[0], ast.Name)):
-            raise AnalysisError("data read of unknown shape at %s" % fi.site(c))
-        D = st.targets[0].id
-        size = q.arg(c, 0, "num_bytes")
-        loop = next((a for a in q.ancestors(pm, st) if isinstance(a, ast.While)), None)
-        if loop is None:
-            raise AnalysisError("data read outside a loop at %s" % fi.site(c))
-        lt = loop.test
-        Rv = None
-        if isinstance(lt, ast.Name):
-            Rv = lt.id
-        elif isinstance(lt, ast.Compare) and len(lt.ops) == 1 and isinstance(lt.ops[0], (ast.Gt, ast.NotEq)) and isinstance(lt.left, ast.Name) and q.is_const(lt.comparators[0], 0):
-            Rv = lt.left.id
-        if Rv is None:
-            raise AnalysisError("data-read loop with an unrecognised condition at %s" % fi.site(loop))
-        if isinstance(size, ast.Call) and isinstance(size.func, ast.Name) and size.func.id == "min":
-            ok = any(q.dotted(a) == Rv for a in size.args)
-        else:
-            ok = q.dotted(size) == Rv
-        ck.ob(R, fi, c, ok, "a data read never asks for more than the bytes still owed (%s)" % Rv)
-        decs = [s for s in loop.body if isinstance(s, ast.AugAssign) and isinstance(s.op, ast.Sub) and q.dotted(s.target) == Rv]
-        for s_ in loop.body:
-            # R = R - len(D)  is  R -= len(D)
-            if isinstance(s_, ast.Assign) and len(s_.targets) == 1 and q.dotted(s_.targets[0]) == Rv and isinstance(s_.value, ast.BinOp) and isinstance(s_.value.op, ast.Sub) and q.dotted(s_.value.left) == Rv:
-                aug = ast.copy_location(ast.AugAssign(target=s_.targets[0], op=ast.Sub(), value=s_.value.right), s_)
-                loop.body[loop.body.index(s_)] = aug if False else s_
-                decs.append(aug)
-                aug._orig = s_
-        dec_stmts = [getattr(d_, "_orig", d_) for d_ in decs]
-        okd = (len(decs) == 1 and isinstance(decs[0].value, ast.Call) and q.call_attr(decs[0].value) == "len" and len(decs[0].value.args) == 1 and q.dotted(decs[0].value.args[0]) == D
-               and any(s is st for s in loop.body) and loop.body.index(dec_stmts[0]) > loop.body.index(st))
-        others = [s for s in q.walk_local(loop) if isinstance(s, (ast.Assign, ast.AugAssign)) and Rv in q.assigned_paths(s) and s not in dec_stmts]
-        if not okd and not decs and others and not all(isinstance(o_, ast.AugAssign) and isinstance(o_.op, ast.Sub) for o_ in others):
-            raise AnalysisError("%s: the owed count is updated in a form the rule does not recognise (%s)" % (fi.qualname, q.unparse(others[0])[:80]))
-        ck.ob(R, fi, c, okd and not others, "the owed count is decremented by exactly len(received) once per read, unconditionally")
-        # where does the count come from
-        if Rv in fi.params():
-            ck.ob(R, fi, loop, True, "the owed count is the caller's parsed Content-Length")
-        else:
-            inits = [s for s in q.walk_body(fi.node) if isinstance(s, ast.Assign) and any(q.dotted(t) == Rv for t in s.targets)]
-            ck.ob(R, fi, loop, len(inits) == 1 and q.dotted(inits[0].value) in length_sources, "the owed count starts at the parsed chunk size")
-        dels = [x for x in q.walk_local(loop) if isinstance(x, ast.Call) and q.call_attr(x) == "data_received"]
-        ck.floor(R, len(dels), 1, "deliveries in the data loop of %s" % fi.qualname)
-        for dcall in dels:
-            ck.ob(R, fi, dcall, len(dcall.args) == 1 and q.dotted(dcall.args[0]) == D, "exactly the bytes just read are delivered to the delegate")
+    name = fi.name
+    n = 0
+    if name == "_read_chunked_body":
+        for sizes in ((3, 2), (7,), (1, 1, 1), (9, 4)):
+            for is_client, wf in ((False, False), (True, True), (False, True)):
+                outs = _c04.eval_chunked(ck, fi, sizes, 100, is_client=is_client, write_finished=wf)
+                det = _c04.eval_chunked.last_detail
+                if not outs:
+                    raise AnalysisError("_read_chunked_body: no outcome")
+                for (kind, exc, delivered, data_read), (over, short, rb, db) in zip(outs, det):
+                    n += 1
+                    tag = "chunks %s" % "+".join(map(str, sizes))
+                    ck.ob(R, fi, fi.node, not over, "a data read never asks for more than the bytes still owed of the current chunk [%s]" % tag, construct="chunked %s: no over-request" % (sizes,))
+                    ck.ob(R, fi, fi.node, kind != "raise" and not short and data_read == sum(sizes), "exactly the declared number of body bytes is consumed, although partial reads return less than asked [%s: %d of %d, %s]" % (tag, data_read, sum(sizes), exc if kind == "raise" else kind), construct="chunked %s: consumed" % (sizes,))
+                    if is_client or not wf:
+                        ck.ob(R, fi, fi.node, db == rb, "exactly the bytes read are delivered to the delegate, once and in order [%s]" % tag, construct="chunked %s: delivered = read" % (sizes,))
+                    else:
+                        ck.ob(R, fi, fi.node, db == b"", "after the handler finished early the rest of the body is consumed but not delivered [%s]" % tag, construct="chunked %s: diverted" % (sizes,))
+    elif name == "_read_fixed_body":
+        for length, is_client, wf in ((1, True, True), (5, False, False), (9, True, True), (0, False, False), (5, False, True)):
+            outs = _c08.fold_fixed(ck, length, write_finished=wf, is_client=is_client)
+            for (kind, exc, delivered), det in zip(outs, _c08.fold_fixed.details):
+                n += 1
+                ck.ob(R, fi, fi.node, not det["over_request"], "a data read never asks for more than the bytes still owed [Content-Length %d]" % length, construct="fixed %d: no over-request" % length)
+                ck.ob(R, fi, fi.node, kind != "raise" and len(det["read_bytes"]) == length, "exactly Content-Length bytes are consumed, although partial reads return less than asked [%d: %d read, %s]" % (length, len(det["read_bytes"]), exc if kind == "raise" else kind), construct="fixed %d: consumed" % length)
+                if is_client or not wf:
+                    ck.ob(R, fi, fi.node, det["delivered_bytes"] == det["read_bytes"], "exactly the bytes read are delivered to the delegate, once and in order [Content-Length %d]" % length, construct="fixed %d: delivered = read" % length)
+                else:
+                    ck.ob(R, fi, fi.node, det["delivered_bytes"] == b"", "after the handler finished early the rest of the body is consumed but not delivered [Content-Length %d]" % length, construct="fixed %d: diverted" % length)
+    else:
+        raise AnalysisError("no byte-accounting scenarios for %s" % fi.qualname)
+    ck.floor(R, n, 4, "folded byte-accounting outcomes of %s" % name)
 
 
 def check_error_discipline(ck, tree, RP="C01"):
@@ -1236,7 +1247,10 @@ def check_host(ck, env, RP="C01"):
     R = RP + ".host-validated"
     fi = _F(ck, HU, "HTTPServerRequest.__init__")
     cfg = fi.cfg
-    rc = [x for x in env.calls(fi) if x[3] is not None and (q.dotted(x[3]) or "").startswith("self.")]
+    from ..x_http import _stable_path_aliases, _subst_aliases
+    al = _stable_path_aliases(cfg)
+    rc = [(c_, m_, p_, _subst_aliases(s_, al) if s_ is not None else s_) for c_, m_, p_, s_ in env.calls(fi)]
+    rc = [x for x in rc if x[3] is not None and (q.dotted(x[3]) or "").startswith("self.")]
     ck.floor(R, len(rc), 1, "regex tests on request attributes in HTTPServerRequest.__init__")
     up, lo = env.rx(HOST_UPPER), env.rx(HOST_LOWER)
     exit_nodes = [cfg.nodes[p] for p, _k in cfg.pred[cfg.exit.id]]
@@ -1305,7 +1319,7 @@ def check_400(ck, RP="C01"):
         for w in writes:
             for x in q.walk_local(w.ast):
                 if isinstance(x, ast.Call) and q.call_attr(x) == "write":
-                    a = x.args[0] if x.args else None
+                    a = x.args[0] if x.args else q.kwarg(x, "data")
                     if isinstance(a, ast.Name) and isinstance(fi.module.assigns.get(a.id), ast.Constant):
                         a = fi.module.assigns[a.id]
                     if not (isinstance(a, ast.Constant) and isinstance(a.value, bytes)):
@@ -1345,9 +1359,8 @@ def check_serving_loop(ck, R):
                 return mode
             return NotImplemented
 
-        ev = Evaluator()
+        ev = mk_evaluator(lp)
         ev.fallback = fb
-        ev.handler_names = lambda h: handler_class_names(lp, h)
         me = Obj("self", stream=Obj("stream"), params=Obj("params"), context=None)
         outs = ev.run(lp.node, dict({"self": me}, **{p: Obj("delegate") for p in ps}))
         if not outs:
@@ -1437,11 +1450,12 @@ def check_wire_exact(ck, tree, RP="C01"):
         for c in q.calls(f.node):
             callee = resolve_call(repo, f, c)
             is_int = isinstance(c.func, ast.Name) and c.func.id == "int" and c.args
-            if (callee in strict or is_int) and c.args:
+            a0_ = c.args[0] if c.args else (argx(repo, f, c, 0, "s") if callee in strict else None)
+            if (callee in strict or is_int) and a0_ is not None:
                 if f in strict:
                     continue
                 n += 1
-                full = _expand(c.args[0], binds)
+                full = _expand(a0_, binds)
                 bad = _normaliser_calls(full)
                 ck.ob(R, f, c, not bad, "the text handed to the strict integer parser is the wire text itself (no %s before validation)" % (", ".join(sorted({b.func.attr for b in bad})) or "strip/replace/lower/split"))
     ck.floor(R, n, 2, "strict integer parser calls in http1connection.py")
@@ -1520,6 +1534,7 @@ def run(ck):
     ck.rule("C01.stream-api-only", "http1connection.py touches the stream only through IOStream's public API")
 
     env = RegexEnv(ck.repo)
+    init_modules(ck)
     tree = read_tree(ck)
     check_header_block(ck, env)
     check_request_line(ck, env)
